@@ -165,10 +165,10 @@ def main():
         if out and out[0] == "PANIC":
             o = "[3;0]"
         else:
-            o = "[" + ";".join(out) + "]"
+            o = g.coq_nums(out)
         return "((%s, tab%d, %s) : ctx * table * bytes)" % (cx, case["tab"], g.coq_bytes(case["data"])), "(%s : list Z)" % o
 
-    preamble = "From V Require Import Model.Packet.\nOpen Scope Z_scope.\n"
+    preamble = "From V Require Import Model.Packet.\nOpen Scope Z_scope.\n" + g.REP_DEF
     for mid, m in enumerate(mats):
         preamble += "Definition tab%d : table := [%s].\n" % (
             mid, ";".join("(%s,%s,%s,%s,%s)" % tuple(g.coq_bytes(x) for x in e) for e in m["table"]))
